@@ -50,6 +50,9 @@ Viols(e, pre, post, enrNext) ==
      (IF ~AllowedC06(pre, e.op, e.res, post) THEN {<<"C06", "token-step">>} ELSE {}) \cup
      (IF \E t \in Tokens : Cardinality(enrNext[t]) > 1 THEN {<<"C06", "token-enrolled-two-nodes">>} ELSE {})
    ELSE {}) \cup
+  \* one activation token authorises ONE fetch: the second of two overlapping fetches presents a token that is used up
+  (IF "C01" \in Props /\ e.op.op = "FetchRace" /\ e.res = "both"
+     THEN {<<"C01", "issued-unauthorised-to-the-second-of-two-overlapping-token-fetches">>} ELSE {}) \cup
   (IF "C01" \in Props /\ e.op.op = "FetchRace" /\ e.res \in {"onlyB", "none"} /\ post.nodes[e.op.ka].present
      THEN {<<"C01", "rejected-but-record-created">>} ELSE {}) \cup
   (IF "C01" \in Props /\ e.op.op = "FetchRace" /\ e.res \in {"onlyA", "none"} /\ post.nodes[e.op.kb].present
